@@ -40,7 +40,8 @@ Definition pinit (defaults st : store) : store :=
                           | None => aset (fst kd) (snd kd) st
                           end) defaults st.
 
-Inductive pop := PSet (k v : string) | PGet (k : string) | PNew.
+(* PSetBad: a write whose value JSON cannot encode (a numpy array / scalar, a set ...) *)
+Inductive pop := PSet (k v : string) | PGet (k : string) | PNew | PSetBad (k : string).
 
 (* state, and what the operation returned *)
 Definition pstep (defaults : store) (st : store) (o : pop) : store * res (option string) :=
@@ -51,6 +52,7 @@ Definition pstep (defaults : store) (st : store) (o : pop) : store * res (option
               | Err e => (st, Err e)
               end
   | PNew => (pinit defaults st, Ok None)
+  | PSetBad k => (st, Err (if key_ok k then TypeError else ValueError))
   end.
 
 Definition prun (defaults : store) (st : store) (ops : list pop) : store :=
